@@ -458,12 +458,11 @@ func writePacketAdaptationField(w *astikit.BitsWriter, af *PacketAdaptationField
 	}
 
 	if af.HasTransportPrivateData {
-		// we can get length from TransportPrivateData itself, why do we need separate field?
-		b.Write(uint8(af.TransportPrivateDataLength))
+		// The length is taken from TransportPrivateData itself, like calcPacketAdaptationFieldLength does, so
+		// that the announced length, the bytes written and the returned count always agree
+		b.Write(uint8(len(af.TransportPrivateData)))
 		bytesWritten++
-		if af.TransportPrivateDataLength > 0 {
-			b.Write(af.TransportPrivateData)
-		}
+		b.Write(af.TransportPrivateData)
 		bytesWritten += len(af.TransportPrivateData)
 	}
 
